@@ -77,8 +77,8 @@ class NumValue(QuantitativeValue):
                 v = tcls.__base__.validate(v)  # -> QuantitativeValue
 
             if isinstance(v, tcls.__base__):  # unpack QuantitativeValue
-                def_unit = cls.infer_unit or ""
-                arr = (v.value, v.unitText or v.unitCode or def_unit)
+                unit = v.unitText or v.unitCode or cls.infer_unit
+                arr = (v.value,) if unit is None else (v.value, unit)
 
             # check that value and unit are valid:
 
